@@ -131,6 +131,7 @@ type TypeSpec struct {
 	Guarded  []GuardDecl
 	Final    []string
 	FinalTags []string
+	Inits    []string // functions that run before the object is shared: exempt from final/guarded checks, no establishment obligation
 	Owns     []string // channel fields whose closed-state only the private writers change
 	Private  []PrivateDecl
 	Atomic   []string
@@ -615,7 +616,7 @@ var clauseKeywords = map[string]bool{
 	"pred": true, "fun": true, "lemma": true, "ghost": true, "func": true, "extern": true, "type": true,
 	"callspec": true, "requires": true, "ensures": true, "modifies": true, "pure": true, "function": true, "inline": true,
 	"trusted": true, "loop": true, "before": true, "sweep": true, "guarded": true, "final": true, "atomic": true,
-	"confined": true, "private": true, "owns": true, "holds": true, "helper": true, "counted": true, "sweepscope": true, "nosweep": true, "waive": true, "hb-by-channel": true, "invariant": true, "ctor": true, "params": true, "fresh": true, "end": true,
+	"confined": true, "private": true, "owns": true, "init": true, "holds": true, "helper": true, "counted": true, "sweepscope": true, "nosweep": true, "waive": true, "hb-by-channel": true, "invariant": true, "ctor": true, "params": true, "fresh": true, "end": true,
 }
 
 type rawClause struct {
@@ -1027,7 +1028,7 @@ func parseSpecFile(path string, pkgPath string) (*SpecFile, error) {
 				return nil, err
 			}
 			curF.Before = append(curF.Before, &CallAssert{callee, ord, c})
-		case "guarded", "final", "atomic", "confined", "hb-by-channel", "ctor", "invariant", "private", "owns":
+		case "guarded", "final", "atomic", "confined", "hb-by-channel", "ctor", "invariant", "private", "owns", "init":
 			if curT == nil {
 				return fail(fmt.Errorf("%s outside type", kw))
 			}
@@ -1043,6 +1044,8 @@ func parseSpecFile(path string, pkgPath string) (*SpecFile, error) {
 				tags, _, body := parseTags(rest)
 				curT.FinalTags = append(curT.FinalTags, tags...)
 				curT.Final = append(curT.Final, splitNames(body)...)
+			case "init":
+				curT.Inits = append(curT.Inits, splitNames(rest)...)
 			case "owns":
 				curT.Owns = append(curT.Owns, splitNames(rest)...)
 			case "private":
